@@ -194,7 +194,7 @@ theorem scanNested_string : ∀ (n : Nat) (s : Bytes), s.length ≤ n → strSca
 /-- a quoted string is passed over -/
 theorem skips_string {s : Bytes} (h : strScanOk s = true) : Skips (bQuote :: s ++ [bQuote]) := by
   intro d _ rest acc
-  simp only [cons_append, append_assoc, singleton_append]
+  simp only [cons_append, append_assoc]
   rw [scanNested]
   simp only [beq_self_eq_true, if_true]
   rw [scanNested_string s.length s (Nat.le_refl _) h]
@@ -208,7 +208,7 @@ theorem skips_bracketed {o c : UInt8} {x : Bytes} (ho : o = bLBr ∨ o = bLBc) (
     rcases ho with rfl | rfl <;> decide
   have hc' : (c == bQuote) = false ∧ (c == bLBr || c == bLBc) = false ∧ (c == bRBr || c == bRBc) = true := by
     rcases hc with rfl | rfl <;> decide
-  simp only [cons_append, append_assoc, singleton_append]
+  simp only [cons_append, append_assoc]
   rw [scanNested]
   simp only [ho'.1, ho'.2, Bool.false_eq_true, if_false, if_true]
   rw [hx (d + 1) (by omega)]
@@ -299,5 +299,498 @@ theorem skips_ents : ∀ (es : JEnts), es.wf = true → Skips (renderEnts es)
       (skips_append (skips_ws hl) (skips_string (strScanOk_of_body hk))) (skips_ws hm)) (skips_byte neutral_colon))
       (skips_ws hc)) (skips_render v hv)) (skips_ws ht)) (skips_sep _)) (skips_ents rest hr)
 end
+
+/-! ## the element scanner returns exactly the element -/
+
+/-- `scanStr` (the string scanner of `scanValue` and of the key position) runs to the closing quote -/
+theorem scanStr_spec : ∀ (n : Nat) (s : Bytes), s.length ≤ n → strScanOk s = true → ∀ (rest acc : Bytes),
+    scanStr (s ++ bQuote :: rest) acc = some (acc.reverse ++ s ++ [bQuote], rest)
+  | _, [], _, _, rest, acc => by
+    cases rest with
+    | nil => simp [scanStr]
+    | cons c r => simp [scanStr]
+  | 0, _ :: _, hl, _, _, _ => by simp at hl
+  | n + 1, [b], _, h, rest, acc => by
+    obtain ⟨h1, h2⟩ := plain_facts (by simpa [strScanOk] using h)
+    simp only [cons_append, nil_append]
+    rw [scanStr]
+    simp only [h1, h2, Bool.false_eq_true, if_false]
+    have := scanStr_spec n [] (by simp) rfl rest (b :: acc)
+    simpa using this
+  | n + 1, b :: c :: r, hl, h, rest, acc => by
+    rw [strScanOk] at h
+    by_cases hb : (b == bBackslash) = true
+    · have hq : (b == bQuote) = false := by
+        have : b = bBackslash := by simpa using hb
+        subst this; decide
+      simp only [hb, if_true] at h
+      simp only [cons_append]
+      rw [scanStr]
+      simp only [hb, hq, Bool.false_eq_true, if_false, if_true]
+      have := scanStr_spec n r (by simp at hl; omega) h rest (c :: b :: acc)
+      simpa using this
+    · simp only [hb, Bool.false_eq_true, if_false, Bool.and_eq_true, bne_iff_ne, ne_eq] at h
+      have hq : (b == bQuote) = false := by simpa using h.1
+      simp only [cons_append]
+      rw [scanStr]
+      simp only [hb, hq, Bool.false_eq_true, if_false]
+      have := scanStr_spec n (c :: r) (by simp at hl; omega) h.2 rest (b :: acc)
+      simpa using this
+
+theorem scanNested_close {c : UInt8} (hc : c = bRBr ∨ c = bRBc) (rest acc : Bytes) :
+    scanNested 1 false false (c :: rest) acc = some ((c :: acc).reverse, rest) := by
+  have hc' : (c == bQuote) = false ∧ (c == bLBr || c == bLBc) = false ∧ (c == bRBr || c == bRBc) = true := by
+    rcases hc with rfl | rfl <;> decide
+  rw [scanNested]
+  simp [hc'.1, hc'.2.1, hc'.2.2]
+
+/-- the first byte of a well-formed text starts a value: it is no white space, no delimiter, no colon -/
+theorem render_head : ∀ (v : JT), v.wf = true →
+    ∃ c tl, render v = c :: tl ∧ isScalarEnd c = false ∧ (c == bColon) = false
+  | .null, _ => ⟨0x6E, [0x75, 0x6C, 0x6C], by simp [render, nullLit], by decide, by decide⟩
+  | .bool true, _ => ⟨0x74, [0x72, 0x75, 0x65], by simp [render, trueLit], by decide, by decide⟩
+  | .bool false, _ => ⟨0x66, [0x61, 0x6C, 0x73, 0x65], by simp [render, falseLit], by decide, by decide⟩
+  | .num tok, h => by
+    have h : isNumber tok = true := by simpa [JT.wf] using h
+    obtain ⟨hne, hb⟩ := isNumber_scalarElem h
+    cases tok with
+    | nil => exact absurd rfl hne
+    | cons c tl =>
+      obtain ⟨h1, _, _, _, _, _, _, _, h9⟩ := scalarByte_facts (hb c (by simp))
+      exact ⟨c, tl, by simp [render], h1, h9⟩
+  | .str body, _ => ⟨bQuote, body ++ [bQuote], by simp [render], by decide, by decide⟩
+  | .arr w0 is, _ => ⟨bLBr, w0 ++ renderItems is ++ [bRBr], by simp [render], by decide, by decide⟩
+  | .obj w0 es, _ => ⟨bLBc, w0 ++ renderEnts es ++ [bRBc], by simp [render], by decide, by decide⟩
+
+/-- **The element scanner returns exactly the element**: for every well-formed JSON text `render v` (any nesting, any
+string content, any inner white space) followed by a byte that ends a scalar (white space, `,`, `]`, `}` — what follows
+a value inside every array and object), `scanValue` returns the text and leaves the rest. -/
+theorem scanValue_render (v : JT) (h : v.wf = true) (c : UInt8) (tl : Bytes) (hc : isScalarEnd c = true) :
+    scanValue (render v ++ c :: tl) = some (render v, c :: tl) := by
+  have hqb : (bQuote == bBackslash) = false := by decide
+  match v, h with
+  | .null, _ => simpa [render] using scanValue_scalar nullLit_scalarElem c tl hc
+  | .bool true, _ => simpa [render] using scanValue_scalar trueLit_scalarElem c tl hc
+  | .bool false, _ => simpa [render] using scanValue_scalar falseLit_scalarElem c tl hc
+  | .num tok, h =>
+    have h : isNumber tok = true := by simpa [JT.wf] using h
+    simpa [render] using scanValue_scalar (isNumber_scalarElem h) c tl hc
+  | .str body, h =>
+    have h : strBodyOk body = true := by simpa [JT.wf] using h
+    simp only [render, cons_append, append_assoc, nil_append]
+    rw [scanValue]
+    simp only [beq_self_eq_true, if_true]
+    rw [scanStr_spec body.length body (Nat.le_refl _) (strScanOk_of_body h)]
+    simp
+  | .arr w0 is, h =>
+    simp only [JT.wf, Bool.and_eq_true] at h
+    have hs := skips_append (skips_ws h.1) (skips_items is h.2)
+    have h1 : (bLBr == bQuote) = false := by decide
+    simp only [render, cons_append, append_assoc, nil_append]
+    rw [scanValue]
+    simp only [h1, beq_self_eq_true, Bool.true_or, Bool.false_eq_true, if_false, if_true]
+    have := hs 1 (Nat.le_refl _) (bRBr :: c :: tl) [bLBr]
+    simp only [append_assoc] at this
+    rw [this, scanNested_close (Or.inl rfl)]
+    simp
+  | .obj w0 es, h =>
+    simp only [JT.wf, Bool.and_eq_true] at h
+    have hs := skips_append (skips_ws h.1) (skips_ents es h.2)
+    have h1 : (bLBc == bQuote) = false := by decide
+    have h2 : (bLBc == bLBr) = false := by decide
+    simp only [render, cons_append, append_assoc, nil_append]
+    rw [scanValue]
+    simp only [h1, h2, beq_self_eq_true, Bool.or_true, Bool.false_eq_true, if_false, if_true]
+    have := hs 1 (Nat.le_refl _) (bRBc :: c :: tl) [bLBc]
+    simp only [append_assoc] at this
+    rw [this, scanNested_close (Or.inr rfl)]
+    simp
+
+/-! ## the lexer on array and object documents -/
+
+theorem skipWs_ws_append : ∀ (w x : Bytes), allWs w = true → skipWs (w ++ x) = skipWs x
+  | [], _, _ => rfl
+  | b :: w, x, h => by
+    simp only [allWs, all_cons, Bool.and_eq_true] at h
+    simp only [cons_append, skipWs, h.1, if_true]
+    exact skipWs_ws_append w x (by simpa [allWs] using h.2)
+
+theorem scalarEnd_false_facts {c : UInt8} (h : isScalarEnd c = false) :
+    isWs c = false ∧ (c == bComma) = false ∧ (c == bRBr) = false ∧ (c == bRBc) = false := by
+  simp only [isScalarEnd, Bool.or_eq_false_iff] at h
+  exact ⟨h.2, h.1.1.1, h.1.1.2, h.1.2⟩
+
+/-- white space followed by a byte that ends a scalar starts with a byte that ends a scalar -/
+theorem ws_then_end (t : Bytes) (ht : allWs t = true) (x : UInt8) (xs : Bytes) (hx : isScalarEnd x = true) :
+    ∃ c' tl', t ++ x :: xs = c' :: tl' ∧ isScalarEnd c' = true := by
+  cases t with
+  | nil => exact ⟨x, xs, rfl, hx⟩
+  | cons b t =>
+    simp only [allWs, all_cons, Bool.and_eq_true] at ht
+    have := ws_scalarEnd b
+    exact ⟨b, t ++ x :: xs, rfl, by simpa [ht.1] using this⟩
+
+/-- value position of an array: white space, a well-formed text, then something that ends a scalar -/
+theorem lexArr_value (fuel : Nat) (first : Bool) (w : Bytes) (hw : allWs w = true) (v : JT) (hv : v.wf = true)
+    (R : Bytes) (hR : ∃ c' tl', R = c' :: tl' ∧ isScalarEnd c' = true) :
+    lexArr (fuel + 1) true first (w ++ render v ++ R) = Tok.val (render v) :: lexArr fuel false false R := by
+  obtain ⟨c', tl', rfl, hc'⟩ := hR
+  obtain ⟨c, tl, hrv, hc1, _⟩ := render_head v hv
+  obtain ⟨hcw, _, hcr, hcc⟩ := scalarEnd_false_facts hc1
+  have hsv := scanValue_render v hv c' tl' hc'
+  rw [lexArr, append_assoc, skipWs_ws_append _ _ hw]
+  rw [hrv] at hsv ⊢
+  simp only [cons_append] at hsv ⊢
+  rw [skipWs_cons_of_not_ws _ hcw]
+  simp only [hcr, hcc, Bool.false_and, Bool.false_eq_true, if_false, if_true]
+  rw [hsv]
+
+theorem lexArr_comma (fuel : Nat) (t : Bytes) (ht : allWs t = true) (xs : Bytes) :
+    lexArr (fuel + 1) false false (t ++ bComma :: xs) = lexArr fuel true false xs := by
+  have hws : isWs bComma = false := by decide
+  rw [lexArr, skipWs_ws_append _ _ ht, skipWs_cons_of_not_ws _ hws]
+  simp
+
+theorem lexArr_close (fuel : Nat) (t : Bytes) (ht : allWs t = true) (post : Bytes) :
+    lexArr (fuel + 1) false false (t ++ bRBr :: post) = [Tok.arrClose] := by
+  have hws : isWs bRBr = false := by decide
+  have hc : (bRBr == bComma) = false := by decide
+  rw [lexArr, skipWs_ws_append _ _ ht, skipWs_cons_of_not_ws _ hws]
+  simp [hc]
+
+theorem lexArr_empty (fuel : Nat) (w : Bytes) (hw : allWs w = true) (post : Bytes) :
+    lexArr (fuel + 1) true true (w ++ bRBr :: post) = [Tok.arrClose] := by
+  have hws : isWs bRBr = false := by decide
+  rw [lexArr, skipWs_ws_append _ _ hw, skipWs_cons_of_not_ws _ hws]
+  simp
+
+theorem isScalarEnd_rbc : isScalarEnd bRBc = true := by decide
+
+/-- **The array lexer on the items of any well-formed array text**: one value token per item, holding exactly the
+item's text (surrounding white space dropped, inner white space kept), then the closing token. -/
+theorem lexArr_items : ∀ (is : JItems), is.wf = true → ∀ (fuel : Nat) (first : Bool) (w post : Bytes),
+    allWs w = true → (is.isNil = true → first = true) →
+    (w ++ renderItems is ++ bRBr :: post).length < fuel →
+    lexArr fuel true first (w ++ renderItems is ++ bRBr :: post) =
+      is.values.map (fun v => Tok.val (render v)) ++ [Tok.arrClose]
+  | .nil, _, fuel, first, w, post, hw, hfirst, hf => by
+    obtain ⟨fuel, rfl⟩ : ∃ k, fuel = k + 1 := ⟨fuel - 1, by omega⟩
+    have : first = true := hfirst rfl
+    subst this
+    simpa [renderItems, JItems.values] using lexArr_empty fuel w hw post
+  | .cons l v t .nil, h, fuel, first, w, post, hw, _, hf => by
+    simp only [JItems.wf, Bool.and_eq_true] at h
+    obtain ⟨⟨⟨hl, hv⟩, ht⟩, _⟩ := h
+    obtain ⟨c, tl, hrv, _⟩ := render_head v hv
+    have hlen : (render v).length ≥ 1 := by rw [hrv]; simp
+    simp only [renderItems, JItems.isNil, sepOf, if_true, append_nil, length_append, length_cons] at hf
+    obtain ⟨fuel, rfl⟩ : ∃ k, fuel = k + 2 := ⟨fuel - 2, by omega⟩
+    have hwl : allWs (w ++ l) = true := by simp only [allWs, all_append, Bool.and_eq_true] at *; exact ⟨hw, hl⟩
+    have h1 := lexArr_value (fuel + 1) first (w ++ l) hwl v hv (t ++ bRBr :: post)
+      (ws_then_end t ht bRBr post isScalarEnd_rbr)
+    have h2 := lexArr_close fuel t ht post
+    simp only [renderItems, JItems.isNil, sepOf, if_true, append_nil, JItems.values, map_cons, map_nil]
+    simp only [append_assoc] at h1 ⊢
+    rw [h1, h2]
+    simp
+  | .cons l v t (.cons l2 v2 t2 rest), h, fuel, first, w, post, hw, _, hf => by
+    have hr : (JItems.cons l2 v2 t2 rest).wf = true := by
+      simp only [JItems.wf, Bool.and_eq_true] at h ⊢; exact h.2
+    simp only [JItems.wf, Bool.and_eq_true] at h
+    obtain ⟨⟨⟨hl, hv⟩, ht⟩, _⟩ := h
+    obtain ⟨c, tl, hrv, _⟩ := render_head v hv
+    have hlen : (render v).length ≥ 1 := by rw [hrv]; simp
+    rw [renderItems] at hf ⊢
+    simp only [JItems.isNil, sepOf, Bool.false_eq_true, if_false] at hf ⊢
+    simp only [length_append, length_cons, length_nil] at hf
+    obtain ⟨fuel, rfl⟩ : ∃ k, fuel = k + 2 := ⟨fuel - 2, by omega⟩
+    have hwl : allWs (w ++ l) = true := by simp only [allWs, all_append, Bool.and_eq_true] at *; exact ⟨hw, hl⟩
+    have h1 := lexArr_value (fuel + 1) first (w ++ l) hwl v hv
+      (t ++ bComma :: (renderItems (.cons l2 v2 t2 rest) ++ bRBr :: post))
+      (ws_then_end t ht bComma _ isScalarEnd_comma)
+    have h2 := lexArr_comma fuel t ht (renderItems (.cons l2 v2 t2 rest) ++ bRBr :: post)
+    have ih := lexArr_items (.cons l2 v2 t2 rest) hr fuel false [] post rfl (by simp [JItems.isNil])
+      (by simp only [nil_append, length_append, length_cons]; omega)
+    simp only [nil_append] at ih
+    simp only [JItems.values, map_cons]
+    simp only [append_assoc, cons_append, nil_append] at h1 ⊢
+    rw [h1, h2, ih]
+    simp [JItems.values]
+
+/-- **`jsonLex` on any well-formed array document**: white space before, any text after the closing bracket. -/
+theorem jsonLex_array (pre w0 : Bytes) (is : JItems) (post : Bytes) (hpre : allWs pre = true)
+    (h : (JT.arr w0 is).wf = true) :
+    jsonLex (pre ++ render (.arr w0 is) ++ post) =
+      Tok.arrOpen :: is.values.map (fun v => Tok.val (render v)) ++ [Tok.arrClose] := by
+  simp only [JT.wf, Bool.and_eq_true] at h
+  have hws : isWs bLBr = false := by decide
+  rw [jsonLex, append_assoc, skipWs_ws_append _ _ hpre]
+  simp only [render, cons_append, append_assoc, nil_append]
+  rw [skipWs_cons_of_not_ws _ hws]
+  simp only [beq_self_eq_true, if_true, cons.injEq, true_and]
+  have := lexArr_items is h.2 ((pre ++ bLBr :: (w0 ++ (renderItems is ++ bRBr :: post))).length + 1) true w0 post h.1
+    (fun _ => rfl) (by simp only [length_append, length_cons]; omega)
+  simpa [append_assoc] using this
+
+/-! ### objects -/
+
+theorem lexObj_entry (fuel : Nat) (first : Bool) (l k m c : Bytes) (v : JT) (hl : allWs l = true)
+    (hk : strBodyOk k = true) (hm : allWs m = true) (hc : allWs c = true) (hv : v.wf = true)
+    (R : Bytes) (hR : ∃ c' tl', R = c' :: tl' ∧ isScalarEnd c' = true) :
+    lexObj (fuel + 1) true first (l ++ (bQuote :: k ++ [bQuote]) ++ m ++ [bColon] ++ c ++ render v ++ R) =
+      Tok.key (bQuote :: k ++ [bQuote]) :: Tok.val (render v) :: lexObj fuel false false R := by
+  obtain ⟨c', tl', rfl, hc'⟩ := hR
+  obtain ⟨c0, tl0, hrv, hc1, _⟩ := render_head v hv
+  obtain ⟨hcw, _, _, _⟩ := scalarEnd_false_facts hc1
+  have hsv := scanValue_render v hv c' tl' hc'
+  have hq : isWs bQuote = false := by decide
+  have hq1 : (bQuote == bRBc) = false := by decide
+  have hq2 : (bQuote == bRBr) = false := by decide
+  have hcol : isWs bColon = false := by decide
+  have hstr := scanStr_spec k.length k (Nat.le_refl _) (strScanOk_of_body hk)
+    (m ++ bColon :: (c ++ (render v ++ c' :: tl'))) [bQuote]
+  rw [lexObj]
+  simp only [append_assoc, cons_append, nil_append]
+  rw [skipWs_ws_append _ _ hl, skipWs_cons_of_not_ws _ hq]
+  simp only [hq1, hq2, Bool.false_and, Bool.false_eq_true, if_false, beq_self_eq_true, if_true]
+  rw [hstr]
+  simp only [reverse_singleton, cons_append, nil_append]
+  rw [skipWs_ws_append _ _ hm, skipWs_cons_of_not_ws _ hcol]
+  simp only [beq_self_eq_true, if_true]
+  rw [skipWs_ws_append _ _ hc]
+  rw [hrv] at hsv ⊢
+  simp only [cons_append] at hsv ⊢
+  rw [skipWs_cons_of_not_ws _ hcw, hsv]
+
+theorem lexObj_comma (fuel : Nat) (t : Bytes) (ht : allWs t = true) (xs : Bytes) :
+    lexObj (fuel + 1) false false (t ++ bComma :: xs) = lexObj fuel true false xs := by
+  have hws : isWs bComma = false := by decide
+  rw [lexObj, skipWs_ws_append _ _ ht, skipWs_cons_of_not_ws _ hws]
+  simp
+
+theorem lexObj_close (fuel : Nat) (t : Bytes) (ht : allWs t = true) (post : Bytes) :
+    lexObj (fuel + 1) false false (t ++ bRBc :: post) = [Tok.objClose] := by
+  have hws : isWs bRBc = false := by decide
+  have hc : (bRBc == bComma) = false := by decide
+  rw [lexObj, skipWs_ws_append _ _ ht, skipWs_cons_of_not_ws _ hws]
+  simp [hc]
+
+theorem lexObj_empty (fuel : Nat) (w : Bytes) (hw : allWs w = true) (post : Bytes) :
+    lexObj (fuel + 1) true true (w ++ bRBc :: post) = [Tok.objClose] := by
+  have hws : isWs bRBc = false := by decide
+  rw [lexObj, skipWs_ws_append _ _ hw, skipWs_cons_of_not_ws _ hws]
+  simp
+
+/-- the tokens of the entries: key (raw text with its quotes), value -/
+def entToks (es : JEnts) : List Tok := es.entries.flatMap (fun kv => [Tok.key kv.1, Tok.val (render kv.2)])
+
+/-- **The object lexer on the entries of any well-formed object text** (keys with escapes, repeated keys, white
+space around keys, colons and values). -/
+theorem lexObj_ents : ∀ (es : JEnts), es.wf = true → ∀ (fuel : Nat) (first : Bool) (w post : Bytes),
+    allWs w = true → (es.isNil = true → first = true) →
+    (w ++ renderEnts es ++ bRBc :: post).length < fuel →
+    lexObj fuel true first (w ++ renderEnts es ++ bRBc :: post) = entToks es ++ [Tok.objClose]
+  | .nil, _, fuel, first, w, post, hw, hfirst, hf => by
+    obtain ⟨fuel, rfl⟩ : ∃ k, fuel = k + 1 := ⟨fuel - 1, by omega⟩
+    have : first = true := hfirst rfl
+    subst this
+    simpa [renderEnts, entToks, JEnts.entries] using lexObj_empty fuel w hw post
+  | .cons l k m c v t .nil, h, fuel, first, w, post, hw, _, hf => by
+    simp only [JEnts.wf, Bool.and_eq_true] at h
+    obtain ⟨⟨⟨⟨⟨⟨hl, hk⟩, hm⟩, hc⟩, hv⟩, ht⟩, _⟩ := h
+    simp only [renderEnts, JEnts.isNil, sepOf, if_true, append_nil, length_append, length_cons] at hf
+    obtain ⟨fuel, rfl⟩ : ∃ k, fuel = k + 2 := ⟨fuel - 2, by omega⟩
+    have hwl : allWs (w ++ l) = true := by simp only [allWs, all_append, Bool.and_eq_true] at *; exact ⟨hw, hl⟩
+    have h1 := lexObj_entry (fuel + 1) first (w ++ l) k m c v hwl hk hm hc hv (t ++ bRBc :: post)
+      (ws_then_end t ht bRBc post isScalarEnd_rbc)
+    have h2 := lexObj_close fuel t ht post
+    simp only [renderEnts, JEnts.isNil, sepOf, if_true, append_nil, entToks, JEnts.entries, flatMap_cons, flatMap_nil]
+    simp only [append_assoc, cons_append, nil_append] at h1 ⊢
+    rw [h1, h2]
+  | .cons l k m c v t (.cons l2 k2 m2 c2 v2 t2 rest), h, fuel, first, w, post, hw, _, hf => by
+    have hr : (JEnts.cons l2 k2 m2 c2 v2 t2 rest).wf = true := by
+      simp only [JEnts.wf, Bool.and_eq_true] at h ⊢; exact h.2
+    simp only [JEnts.wf, Bool.and_eq_true] at h
+    obtain ⟨⟨⟨⟨⟨⟨hl, hk⟩, hm⟩, hc⟩, hv⟩, ht⟩, _⟩ := h
+    rw [renderEnts] at hf ⊢
+    simp only [JEnts.isNil, sepOf, Bool.false_eq_true, if_false] at hf ⊢
+    simp only [length_append, length_cons, length_nil] at hf
+    obtain ⟨fuel, rfl⟩ : ∃ k, fuel = k + 2 := ⟨fuel - 2, by omega⟩
+    have hwl : allWs (w ++ l) = true := by simp only [allWs, all_append, Bool.and_eq_true] at *; exact ⟨hw, hl⟩
+    have h1 := lexObj_entry (fuel + 1) first (w ++ l) k m c v hwl hk hm hc hv
+      (t ++ bComma :: (renderEnts (.cons l2 k2 m2 c2 v2 t2 rest) ++ bRBc :: post))
+      (ws_then_end t ht bComma _ isScalarEnd_comma)
+    have h2 := lexObj_comma fuel t ht (renderEnts (.cons l2 k2 m2 c2 v2 t2 rest) ++ bRBc :: post)
+    have ih := lexObj_ents (.cons l2 k2 m2 c2 v2 t2 rest) hr fuel false [] post rfl (by simp [JEnts.isNil])
+      (by simp only [nil_append, length_append, length_cons]; omega)
+    simp only [nil_append] at ih
+    have hent : entToks (.cons l k m c v t (.cons l2 k2 m2 c2 v2 t2 rest)) =
+        Tok.key (bQuote :: k ++ [bQuote]) :: Tok.val (render v) :: entToks (.cons l2 k2 m2 c2 v2 t2 rest) := by
+      simp [entToks, JEnts.entries]
+    rw [hent]
+    simp only [append_assoc, cons_append, nil_append] at h1 ⊢
+    rw [h1, h2, ih]
+
+/-- **`jsonLex` on any well-formed object document.** -/
+theorem jsonLex_object (pre w0 : Bytes) (es : JEnts) (post : Bytes) (hpre : allWs pre = true)
+    (h : (JT.obj w0 es).wf = true) :
+    jsonLex (pre ++ render (.obj w0 es) ++ post) = Tok.objOpen :: entToks es ++ [Tok.objClose] := by
+  simp only [JT.wf, Bool.and_eq_true] at h
+  have hws : isWs bLBc = false := by decide
+  have hne : (bLBc == bLBr) = false := by decide
+  rw [jsonLex, append_assoc, skipWs_ws_append _ _ hpre]
+  simp only [render, cons_append, append_assoc, nil_append]
+  rw [skipWs_cons_of_not_ws _ hws]
+  simp only [hne, Bool.false_eq_true, if_false, beq_self_eq_true, if_true, cons.injEq, true_and]
+  have := lexObj_ents es h.2 ((pre ++ bLBc :: (w0 ++ (renderEnts es ++ bRBc :: post))).length + 1) true w0 post h.1
+    (fun _ => rfl) (by simp only [length_append, length_cons]; omega)
+  simpa [append_assoc] using this
+
+/-! ## byte-level well-formedness and the documents of the harness -/
+
+/-- the decidable predicate is sound by construction: an accepted text is the rendering of a well-formed tree -/
+theorem witness_sound {e : Bytes} {t : JT} (h : witness e = some t) : t.wf = true ∧ render t = e := by
+  unfold witness at h
+  split at h
+  · split at h
+    · rename_i hc
+      simp only [Option.some.injEq] at h
+      subst h
+      simpa using hc
+    · simp at h
+  · simp at h
+
+theorem isJsonText_sound {e : Bytes} (h : isJsonText e = true) : ∃ t, t.wf = true ∧ render t = e := by
+  unfold isJsonText at h
+  obtain ⟨t, ht⟩ := Option.isSome_iff_exists.mp h
+  exact ⟨t, witness_sound ht⟩
+
+/-- a list of accepted texts is the rendering of a list of well-formed trees -/
+theorem witness_list : ∀ (es : List Bytes), (∀ e ∈ es, isJsonText e = true) →
+    ∃ ts : List JT, (∀ t ∈ ts, t.wf = true) ∧ ts.map render = es
+  | [], _ => ⟨[], by simp, rfl⟩
+  | e :: es, h => by
+    obtain ⟨t, ht, hr⟩ := isJsonText_sound (h e (by simp))
+    obtain ⟨ts, hts, hrs⟩ := witness_list es (fun e' he' => h e' (by simp [he']))
+    refine ⟨t :: ts, ?_, by simp [hr, hrs]⟩
+    intro t' ht'
+    rcases mem_cons.mp ht' with rfl | ht'
+    · exact ht
+    · exact hts t' ht'
+
+/-- the items of a harness array document -/
+def itemsAt (wsf : Nat → Bytes) : Nat → List JT → JItems
+  | _, [] => .nil
+  | i, t :: r => .cons (wsf i) t (wsf (i + 1)) (itemsAt wsf (i + 2) r)
+
+theorem renderItems_itemsAt (wsf : Nat → Bytes) : ∀ (ts : List JT) (i : Nat),
+    renderItems (itemsAt wsf i ts) = arrDocGo wsf i (ts.map render)
+  | [], _ => rfl
+  | [t], i => by simp [itemsAt, renderItems, arrDocGo, JItems.isNil, sepOf]
+  | t :: t2 :: r, i => by
+    have ih := renderItems_itemsAt wsf (t2 :: r) (i + 2)
+    simp only [itemsAt] at ih ⊢
+    rw [renderItems, ih]
+    simp [arrDocGo, JItems.isNil, sepOf]
+
+theorem itemsAt_values (wsf : Nat → Bytes) : ∀ (ts : List JT) (i : Nat), (itemsAt wsf i ts).values = ts
+  | [], _ => rfl
+  | t :: r, i => by simp [itemsAt, JItems.values, itemsAt_values wsf r (i + 2)]
+
+theorem itemsAt_wf (wsf : Nat → Bytes) (hws : ∀ i, allWs (wsf i) = true) : ∀ (ts : List JT) (i : Nat),
+    (∀ t ∈ ts, t.wf = true) → (itemsAt wsf i ts).wf = true
+  | [], _, _ => rfl
+  | t :: r, i, h => by
+    simp [itemsAt, JItems.wf, hws, h t (by simp), itemsAt_wf wsf hws r (i + 2) (fun t' ht' => h t' (by simp [ht']))]
+
+/-- a harness array document is a well-formed array text between white space -/
+theorem arrDoc_eq (wsf : Nat → Bytes) (ts : List JT) :
+    arrDoc wsf (ts.map render) =
+      wsf 7 ++ render (.arr (if ts.isEmpty then wsf 3 else []) (itemsAt wsf 0 ts)) ++ wsf 5 := by
+  cases ts with
+  | nil => simp [arrDoc, render, itemsAt, renderItems, arrDocGo]
+  | cons t r =>
+    simp only [arrDoc, render, renderItems_itemsAt]
+    simp
+
+/-- the entries of a harness object document -/
+def entsAt (wsf : Nat → Bytes) : Nat → List (Bytes × JT) → JEnts
+  | _, [] => .nil
+  | i, kv :: r => .cons (wsf i) kv.1 (wsf (i + 1)) (wsf (i + 2)) kv.2 (wsf (i + 3)) (entsAt wsf (i + 4) r)
+
+theorem renderEnts_entsAt (wsf : Nat → Bytes) : ∀ (kts : List (Bytes × JT)) (i : Nat),
+    renderEnts (entsAt wsf i kts) = objDocGo wsf i (kts.map (fun kv => (kv.1, render kv.2)))
+  | [], _ => rfl
+  | [kv], i => by simp [entsAt, renderEnts, objDocGo, objEnt, JEnts.isNil, sepOf]
+  | kv :: kv2 :: r, i => by
+    have ih := renderEnts_entsAt wsf (kv2 :: r) (i + 4)
+    simp only [entsAt] at ih ⊢
+    rw [renderEnts, ih]
+    simp [objDocGo, objEnt, JEnts.isNil, sepOf]
+
+theorem entsAt_entries (wsf : Nat → Bytes) : ∀ (kts : List (Bytes × JT)) (i : Nat),
+    (entsAt wsf i kts).entries = kts.map (fun kv => (bQuote :: kv.1 ++ [bQuote], kv.2))
+  | [], _ => rfl
+  | kv :: r, i => by simp [entsAt, JEnts.entries, entsAt_entries wsf r (i + 4)]
+
+theorem entsAt_wf (wsf : Nat → Bytes) (hws : ∀ i, allWs (wsf i) = true) : ∀ (kts : List (Bytes × JT)) (i : Nat),
+    (∀ kv ∈ kts, strBodyOk kv.1 = true ∧ kv.2.wf = true) → (entsAt wsf i kts).wf = true
+  | [], _, _ => rfl
+  | kv :: r, i, h => by
+    simp [entsAt, JEnts.wf, hws, (h kv (by simp)).1, (h kv (by simp)).2,
+      entsAt_wf wsf hws r (i + 4) (fun kv' hkv' => h kv' (by simp [hkv']))]
+
+theorem objDoc_eq (wsf : Nat → Bytes) (kts : List (Bytes × JT)) :
+    objDoc wsf (kts.map (fun kv => (kv.1, render kv.2))) =
+      wsf 7 ++ render (.obj (if kts.isEmpty then wsf 3 else []) (entsAt wsf 0 kts)) ++ wsf 5 := by
+  cases kts with
+  | nil => simp [objDoc, render, entsAt, renderEnts, objDocGo]
+  | cons kv r =>
+    simp only [objDoc, render, renderEnts_entsAt]
+    simp
+
+/-- a list of entries with accepted value texts is the rendering of a list of entries with well-formed trees -/
+theorem witness_entries : ∀ (es : List (Bytes × Bytes)), (∀ kv ∈ es, isJsonText kv.2 = true) →
+    ∃ kts : List (Bytes × JT), (∀ kv ∈ kts, kv.2.wf = true) ∧ kts.map (fun kv => (kv.1, render kv.2)) = es
+  | [], _ => ⟨[], by simp, rfl⟩
+  | (k, e) :: es, h => by
+    obtain ⟨t, ht, hr⟩ := isJsonText_sound (h (k, e) (by simp))
+    obtain ⟨kts, hts, hrs⟩ := witness_entries es (fun e' he' => h e' (by simp [he']))
+    refine ⟨(k, t) :: kts, ?_, by simp [hr, hrs]⟩
+    intro t' ht'
+    rcases mem_cons.mp ht' with rfl | ht'
+    · exact ht
+    · exact hts t' ht'
+
+theorem wsOf_allWs (ws i : Nat) : allWs (wsOf ws i) = true := by
+  unfold wsOf
+  split
+  · rfl
+  · rfl
+  · split <;> rfl
+  · split <;> rfl
+
+theorem joinBytes_eq_renderItems : ∀ (ts : List JT),
+    joinBytes [bComma] (ts.map render) = renderItems (JItems.ofList ts)
+  | [] => rfl
+  | [t] => by simp [joinBytes, JItems.ofList, renderItems, JItems.isNil, sepOf]
+  | t :: t2 :: r => by
+    have ih := joinBytes_eq_renderItems (t2 :: r)
+    simp only [map_cons, JItems.ofList] at ih ⊢
+    rw [renderItems, ← ih]
+    simp [joinBytes, JItems.isNil, sepOf]
+
+/-- the framed document of the writers is the compact array text -/
+theorem frame_eq_render (ts : List JT) : frame (ts.map render) = render (.arr [] (JItems.ofList ts)) := by
+  simp [frame, render, joinBytes_eq_renderItems]
+
+theorem ofList_values : ∀ (ts : List JT), (JItems.ofList ts).values = ts
+  | [] => rfl
+  | t :: r => by simp [JItems.ofList, JItems.values, ofList_values r]
+
+theorem ofList_wf : ∀ (ts : List JT), (∀ t ∈ ts, t.wf = true) → (JItems.ofList ts).wf = true
+  | [], _ => rfl
+  | t :: r, h => by
+    simp [JItems.ofList, JItems.wf, allWs, h t (by simp), ofList_wf r (fun t' ht' => h t' (by simp [ht']))]
 
 end ShpanVerif.Proofs.JsonScan
